@@ -1,4 +1,5 @@
 import ThermoVerif.Model.Network
+import ThermoVerif.Lemmas.NetworkExec
 /-
 C18 — Flowsheet connections stay mutually consistent under every rewiring operation.
 
@@ -44,32 +45,112 @@ structure Scoped (w : World) : Prop where
 used within its preconditions, the invariant holds. -/
 def Good (w : World) : Prop := w.pre = true → Inv w ∧ Scoped w
 
+/-! ### Bridge to the per-side count formulation used in the lemma files -/
+
+theorem sinv_of_sideInv {w : World} (k : Which) (hi : SideInv w.real (w.side k)) (hs : Scoped w) :
+    SInv w.nU (w.get k) := by
+  refine ⟨fun u s hr => ?_, fun u hf => ?_, ?_⟩
+  · have hr' : w.real s = true := by simpa using hr
+    have h1 := hi.listed_iff_docked u s hr'
+    have h2 := hi.no_two_ports u s hr'
+    simp only [get_sd]
+    by_cases hl : (w.side k).loc s = some u
+    · have := List.count_pos_iff.mpr (h1.mpr hl)
+      rw [if_pos hl]; omega
+    · rw [if_neg hl]
+      exact List.count_eq_zero.mpr (fun hm => hl (h1.mp hm))
+  · simp only [get_sd] at hf ⊢
+    exact hi.fixed_size u hf
+  · constructor
+    · intro u s h; simpa using hs.lst_lt k u s (by simpa using h)
+    · intro s h; simpa using hs.loc_none k s (by simpa using h)
+    · intro s h; simpa using hs.not_real s (by simpa using h)
+    · intro u h; simpa using hs.lst_nil k u h
+    · intro u h; simpa using hs.fixed_false k u h
+    · intro s u h; exact hs.loc_lt k s u (by simpa using h)
+
+theorem sideInv_of_sinv {w : World} (k : Which) (h : SInv w.nU (w.get k)) :
+    SideInv w.real (w.side k) := by
+  refine ⟨fun u s hr => ?_, fun u s hr => ?_, fun u hf => ?_⟩
+  · have := h.cnt u s (by simpa using hr)
+    simp only [get_sd] at this
+    rw [← List.count_pos_iff, this]
+    split <;> simp [*]
+  · have := h.cnt u s (by simpa using hr)
+    simp only [get_sd] at this
+    rw [this]; split <;> omega
+  · have := h.fx u (by simpa using hf)
+    simpa using this
+
+theorem goodS_of {w : World} (h : Inv w ∧ Scoped w) : GoodS w :=
+  ⟨sinv_of_sideInv .i h.1.ins h.2, sinv_of_sideInv .o h.1.outs h.2⟩
+
+theorem of_goodS {w : World} (h : GoodS w) : Inv w ∧ Scoped w := by
+  refine ⟨⟨sideInv_of_sinv .i h.1, sideInv_of_sinv .o h.2⟩, ?_⟩
+  have side : ∀ k, SInv w.nU (w.get k) := fun k => by cases k; exact h.1; exact h.2
+  constructor
+  · intro k u s hm; simpa using (side k).sc.lst_lt u s (by simpa using hm)
+  · intro k s hs; simpa using (side k).sc.loc_none s (by simpa using hs)
+  · intro s hs; simpa using h.1.sc.not_real s (by simpa using hs)
+  · intro k u hu; simpa using (side k).sc.lst_nil u hu
+  · intro k u hu; simpa using (side k).sc.fixed_false u hu
+  · intro k s u hl; exact (side k).sc.loc_lt s u (by simpa using hl)
+
 theorem good_init : Good World.init := by
-  sorry
+  intro _
+  refine ⟨⟨?_, ?_⟩, ?_⟩
+  · exact ⟨by simp [World.init, Side.init], by simp [World.init, Side.init],
+      by simp [World.init, Side.init]⟩
+  · exact ⟨by simp [World.init, Side.init], by simp [World.init, Side.init],
+      by simp [World.init, Side.init]⟩
+  · constructor
+    · intro k u s; cases k <;> simp [World.init, Side.init, World.side]
+    · intro k s; cases k <;> simp [World.init, Side.init, World.side]
+    · intro s; simp [World.init]
+    · intro k u; cases k <;> simp [World.init, Side.init, World.side]
+    · intro k u; cases k <;> simp [World.init, Side.init, World.side]
+    · intro k s u; cases k <;> simp [World.init, Side.init, World.side]
 
 /-- The precondition monitor is sticky: it never turns back on. -/
 theorem pre_sticky (w w' : World) (op : Op) (h : w.step op = .ok w') (hp : w'.pre = true) :
     w.pre = true := by
-  sorry
+  have := (exec_wstep h).ext.pre hp
+  simp only [Bool.and_eq_true] at this
+  exact this.1.1
 
 /-- One operation preserves the invariant (all 22 operation kinds). -/
 theorem inv_step (w w' : World) (op : Op) (hg : Good w) (h : w.step op = .ok w') : Good w' := by
-  sorry
+  intro hp
+  have S := exec_wstep h
+  have hp0 := S.ext.pre hp
+  simp only [Bool.and_eq_true] at hp0
+  obtain ⟨⟨hpw, hids⟩, hunits⟩ := hp0
+  have hG := goodS_of (hg hpw)
+  exact of_goodS (S.inv hp ⟨hG.1.of_eq rfl rfl rfl, hG.2.of_eq rfl rfl rfl⟩ ⟨hids, hunits⟩)
 
 /-- Every history, of any length. -/
 theorem inv_history (ops : List Op) (w : World) (hg : Good w) : Good (w.run ops) := by
-  sorry
+  induction ops generalizing w with
+  | nil => exact hg
+  | cons op ops ih =>
+    simp only [World.run]
+    split
+    · rename_i w' h; exact ih w' (inv_step w w' op hg h)
+    · exact hg
 
 /-- The property as stated: after any sequence of operations from the empty
 flowsheet, all used within their preconditions, the docking invariant holds. -/
 theorem C18_docking_invariant (ops : List Op) (h : (World.init.run ops).pre = true) :
-    Inv (World.init.run ops) := by
-  sorry
+    Inv (World.init.run ops) :=
+  (inv_history ops World.init good_init h).1
 
 /-- "No stream occupies two ports", across units: a consequence of `Inv`. -/
 theorem one_unit_per_side (w : World) (hi : Inv w) (k : Which) (s u v : Nat)
     (hr : w.real s = true) (hu : s ∈ (w.side k).lst u) (hv : s ∈ (w.side k).lst v) : u = v := by
-  sorry
+  have hs : SideInv w.real (w.side k) := by cases k; exact hi.ins; exact hi.outs
+  have h1 := (hs.listed_iff_docked u s hr).mp hu
+  have h2 := (hs.listed_iff_docked v s hr).mp hv
+  rw [h1] at h2; exact Option.some.inj h2
 
 /-- Non-vacuity: a concrete history exercising redocking across units, pop, slice
 assignment and piping stays within the preconditions (so the theorem above applies to it). -/
@@ -82,6 +163,6 @@ example :
       , .set .i 1 0 (some 6)
       , .pop .i 1 0
       , .pipeUU 1 0 ]).pre = true := by
-  sorry
+  rfl
 
 end ThermoVerif.Props.C18
